@@ -96,7 +96,7 @@ class TreeRun:
                 # static helper of the variant (balancing, colour test): record, result opaque
                 lst = list(st.tags.get("helpers", ()))
                 st.tags["helpers"] = tuple(lst + [(name, tuple(norm(a) for a in args), ln, len(st.tags.get("freed", ())),
-                                                   st.tags.get("nstores", 0))])
+                                                   st.tags.get("nlink", 0))])
                 t = ("call", name, site_of(node), True)
                 st.forget(lambda z: term_mentions(z, t))
                 return [(t, st)]
@@ -107,6 +107,8 @@ class TreeRun:
         def on_stmt_done(st, b, i, stmt, sf_):
             n = 0
             for ev in st.events:
+                if ev[0] == "write" and (ev[1][0] != "fld" or ev[1][2] in ("left", "right")):
+                    st.tags["nlink"] = st.tags.get("nlink", 0) + 1
                 if ev[0] == "write" and ev[1][0] == "fld":
                     n += 1
                     lst = list(st.tags.get("stores", ()))
@@ -148,3 +150,32 @@ def variant_roles(fn):
         roles[ps[3]] = "kd"
         roles[ps[4]] = "vd"
     return roles
+
+
+def field_writers(u):
+    """function name -> set of record fields it writes, transitively through calls inside the unit."""
+    from plint.ir import walk
+    direct, callees = {}, {}
+    for f in u.functions.values():
+        w, c = set(), set()
+        for b, i, s_ in f.stmts():
+            for n in walk(s_):
+                if n["k"] == "asg" or (n["k"] == "un" and ("++" in n["op"] or "--" in n["op"])):
+                    tgt = strip_casts(n["l"] if n["k"] == "asg" else n["e"])
+                    if tgt is not None and tgt["k"] == "member":
+                        w.add(tgt["field"])
+                if n["k"] == "call" and n.get("callee") in u.functions:
+                    c.add(n["callee"])
+        direct[f.name], callees[f.name] = w, c
+    out = {}
+    for name in direct:
+        seen, st, acc = set(), [name], set()
+        while st:
+            x = st.pop()
+            if x in seen:
+                continue
+            seen.add(x)
+            acc |= direct.get(x, set())
+            st.extend(callees.get(x, ()))
+        out[name] = acc
+    return out
